@@ -21,7 +21,7 @@ for pid in all_ids:
         "replay_cmd_template": "./check %s --replay {path}" % pid,
         "engine": "coq-proof+correspondence",
         "level_claimed": {"category": "proof", "text": c["level_text"], "design_ref": "DESIGN.md section 6, " + pid},
-        "level_note": c.get("level_note", "Trusted: Coq 8.16.1 kernel + vm_compute; hand-written Gallina model; correspondence by differential testing through the Go harness (generator quality bounds it); constants translator; verif hooks.") ,
+        "level_note": c.get("level_note", "Trusted: Coq 8.16.1 kernel + vm_compute; hand-written Gallina model; correspondence by differential testing through the Go harness (generator quality bounds it); constants translator; verif hooks." + (" For the lock theorems also the lock-skeleton translator harness/lockx (trusted to over-approximate control flow; its output is re-checked by the verified checker on every run)." if pid in ("C07", "C09") else "")) ,
         "technique": c.get("technique", "Coq proof + model/implementation correspondence check"),
     })
 na = [{"property_id": pid, "reason": props.get(pid, {}).get("na_reason", "check under construction in this round (model and theorems exist as prototypes in DESIGN.md appendices); not claimed until its check runs clean")}
